@@ -274,6 +274,21 @@ fn body(ctx: &Ctx, acc: &mut Acc, started: &AtomicU64, t0: Instant) {
                 (mutate::nested(k, depth), format!("nesting kind {k} depth {depth}"))
             }
             16 => (rng.pick(SPECIAL).to_string(), "special".to_string()),
+            17 => {
+                // valid programs with non-regular / mutually recursive types, as they are and mutated
+                let b = rng.pick(super::corpus::BUILTIN).1.to_string();
+                match rng.below(3) {
+                    0 => (b, "special: builtin".to_string()),
+                    1 => {
+                        let (t, d) = mutate::mutate_tokens(&b, &mut rng);
+                        (t, format!("builtin mutation: {d}"))
+                    }
+                    _ => {
+                        let (t, d) = mutate::mutate_chars(&b, &mut rng);
+                        (t, format!("builtin mutation: {d}"))
+                    }
+                }
+            }
             _ => (base.clone(), "unmutated generated program".to_string()),
         };
         acc.evaluations += 1;
